@@ -48,6 +48,8 @@ class RemoveEntityGuard(Contract):
         conc = Opaque("concatenator")
         conc.attrs["remove_entity"] = Opaque("concatenator.remove_entity")
         conc.attrs["remove_entity"].maybe_method = lambda I, a, kw: I.event("concatenator.remove_entity", entity=a[0])
+        conc.attrs["remove_children"] = Opaque("concatenator.remove_children")
+        conc.attrs["remove_children"].maybe_method = lambda I, a, kw: I.event("concatenator.remove_children", children=a[0])
         ent.attrs["concatenator"] = conc
         parent = Opaque("parent")
         parent.attrs["remove_children"] = Opaque("parent.remove_children")
@@ -60,7 +62,7 @@ class RemoveEntityGuard(Contract):
         e = ctx.env
         ev = [k for k, p in ctx.path.events]
         ctx.oblige("a-protected-entity-is-never-removed", e["allow"] is True)
-        acted = [k for k in ev if k in ("remove_recursively", "concatenator.remove_entity", "parent.remove_children", "io")]
+        acted = [k for k in ev if k in ("remove_recursively", "concatenator.remove_entity", "concatenator.remove_children", "parent.remove_children", "io")]
         ctx.oblige("a-removal-request-acts-on-the-entity", bool(acted))
 
     def post_raises(self, ctx, sig):
